@@ -12,7 +12,7 @@ MCS = [('MCHeard', 'MCHeard{T}.cfg')]
 def run(tier, seed, t0):
     mcs = [(m, c.replace("{T}", "T" if tier == "thorough" else "")) for (m, c) in MCS]
     return daemon.run_group(PROP, tier, seed, t0, FAMILIES, "TraceBrowse", "TraceBrowse.cfg", PREFIXES, mcs,
-                            ['ev.ServiceFound', 'ev.ServiceResolved', 'C04.followup', 'C04.loop-tries'], ASSUME, RULE, n_quick=80, n_thorough=2000)
+                            ['ev.ServiceFound', 'ev.ServiceResolved', 'C04.followup', 'C04.loop-tries', 'C04.resolve-txt'], ASSUME, RULE, n_quick=80, n_thorough=2000)
 
 
 def replay(path, seed):
